@@ -180,6 +180,20 @@ def cases(ctx):
                         if len(perms) > 3:
                             perms = ctx.rng.sample(perms, 3)
                         yield w, [list(p) for p in perms]
+    # directed: a layer with several bases that is itself never requested (it owns no tests), below requested layers
+    # that each have a single base - P, Q, M(P, Q), T(M), X(M): every naming of the four, every subset, every order
+    import itertools as _it
+    for kinds in ("class", "instance"):
+        for names in _it.permutations([("wl", "A"), ("wl", "B"), ("wl", "C"), ("wl", "D")]):
+            if ctx.quick() and ctx.rng.random() < 0.5:
+                continue
+            for mbases in ([0, 1], [1, 0]):
+                spec = [(kinds, names[0], []), (kinds, names[1], []), (kinds, names[2], mbases), (kinds, names[3], [2]),
+                        (kinds, ("wl", "X"), [2])]
+                w = build_world(spec)
+                for sub in ([0, 1, 3], [1, 3], [0, 3], [0, 1, 3, 4], [3, 4, 0], [1, 4]):
+                    perms = [list(p) for p in _it.permutations(sub)]
+                    yield w, (perms if len(perms) <= 2 else ctx.rng.sample(perms, 2))
     for _ in range(150 if ctx.quick() else 3000):
         n = ctx.rng.randint(3, 10)
         w = build_world(random_spec(ctx.rng, n))
@@ -326,6 +340,9 @@ def run(ctx):
     world_order_cases(ctx)
     twice_order_cases(ctx)
     parallel_order_cases(ctx)
+    # a layer known under two names (an alias): each group runs once, also when its layer is handed to a subprocess
+    from harness import corr_c03
+    corr_c03.alias_cases(ctx, n=2 if ctx.quick() else 30)
 
 
 def world_order_cases(ctx):
